@@ -183,6 +183,10 @@ def tlc_json_lines(out, tag=None):
             if tag is None or (isinstance(v, dict) and v.get("gen") == tag) or \
                     (isinstance(v, dict) and v.get("tag") == tag):
                 res.append(v)
+    if tag is not None and all(isinstance(v, dict) and "gen" in v for v in res):
+        # TLC's workers print in a nondeterministic order: fix the order so that ids (and the seeded choices the
+        # harness derives from them) are reproducible
+        res.sort(key=lambda v: json.dumps(v, sort_keys=True))
     return res
 
 
